@@ -155,26 +155,36 @@ impl ParseData for Core {
     }
 
     fn validate_body(&self, errors: &mut Accumulator) {
-        if let Data::Struct(fields) = &self.data {
-            let flatten_targets: Vec<_> = fields
-                .iter()
-                .filter_map(|field| {
-                    if field.flatten.is_present() {
-                        Some(field.flatten)
-                    } else {
-                        None
-                    }
-                })
-                .collect();
-
-            if flatten_targets.len() > 1 {
-                for flatten in flatten_targets {
-                    errors.push(
-                        Error::custom("`#[darling(flatten)]` can only be applied to one field")
-                            .with_span(&flatten.span()),
-                    );
+        match &self.data {
+            Data::Struct(fields) => validate_flatten(fields.iter(), errors),
+            // Each struct variant has its own set of fields, so each gets its own flatten target.
+            Data::Enum(variants) => {
+                for variant in variants {
+                    validate_flatten(variant.fields(), errors);
                 }
             }
+        }
+    }
+}
+
+/// Check that at most one of `fields` is marked `#[darling(flatten)]`.
+fn validate_flatten<'a>(fields: impl Iterator<Item = &'a InputField>, errors: &mut Accumulator) {
+    let flatten_targets: Vec<_> = fields
+        .filter_map(|field| {
+            if field.flatten.is_present() {
+                Some(field.flatten)
+            } else {
+                None
+            }
+        })
+        .collect();
+
+    if flatten_targets.len() > 1 {
+        for flatten in flatten_targets {
+            errors.push(
+                Error::custom("`#[darling(flatten)]` can only be applied to one field")
+                    .with_span(&flatten.span()),
+            );
         }
     }
 }
